@@ -177,7 +177,7 @@ def incoherent_dedispersion(z, DM, /, *, ref_freq=None):
     delays = DM.sample_delay(z.channel_freqs, ref_freq, z.sample_rate)
     delays = delays.round().astype(np.int64)
 
-    crop_before = -min(0, delays[0], delays[-1])
+    crop_before = -min(0, delays.min())
     delays += crop_before
     N = len(z) - max(delays)
 
